@@ -121,6 +121,7 @@ def run(ctx):
 
     # ---------------- C. 3 correct + 1 Byzantine: simulation of the real spec + attack library ----
     for (tag, powers, bi, label) in (("eq0", [1, 1, 1, 1], 0, "3+1 equal powers, Byzantine proposer of round 0"),
+                                     ("eq1", [1, 1, 1, 1], 1, "3+1 equal powers, Byzantine proposer of round 1"),
                                      ("eq3", [1, 1, 1, 1], 3, "3+1 equal powers, Byzantine never proposes"),
                                      ("w2", [2, 2, 1, 1], 2, "3+1 powers 2:2:1:1 (total divisible by 3)")):
         mr3 = 2
